@@ -1124,3 +1124,37 @@ Qed.
 Definition ctor_mol_zero_as_coded (a : nat) : ens := alloc (if 0 =? 0 then 1 else 0) a.
 Lemma ctor_mol_zero_yields_one a : Rect (ctor_mol_zero_as_coded a) /\ nc (ctor_mol_zero_as_coded a) = 1.
 Proof. split; [apply Rect_alloc|reflexivity]. Qed.
+
+(* ------------------------------------------------------------------ DETACHED views *)
+(* detaching adds one ensemble -- a copy of ensemble i -- at the end of the store and touches nothing else *)
+Lemma detach_spec W i W1 : detach W i = Some W1 ->
+  exists e, nth_error (enss W) i = Some e /\ W1 = push_ens W e /\ nth_error (enss W1) (length (enss W)) = Some e /\
+            iters W1 = iters W /\ (forall j, j < length (enss W) -> nth_error (enss W1) j = nth_error (enss W) j) /\
+            (StoreRect W -> StoreRect W1).
+Proof.
+  unfold detach. destruct (nth_error (enss W) i) as [e|] eqn:E; [|discriminate]. cbn [option_map]. intros H. inversion H; subst.
+  exists e. split; [reflexivity|]. split; [reflexivity|]. unfold push_ens; cbn [enss iters]. split.
+  - rewrite nth_error_app2 by lia. now rewrite Nat.sub_diag.
+  - split; [reflexivity|]. split.
+    + intros j Hj. now rewrite nth_error_app1.
+    + intros HW. apply (StoreRect_push W e HW). unfold StoreRect in HW. rewrite Forall_forall in HW. apply HW.
+      eapply nth_error_In; eauto.
+Qed.
+
+(* every use of the detached conformer is the ordinary operation through conformer k of ensemble j of the store *)
+Lemma detached_write_is_step W j k u e e' : u <> DRead -> nth_error (enss W) j = Some e -> duse_fun k u e = Some e' ->
+  step W (duse_op j k u) = Ok (set_ens W j e') ONone.
+Proof.
+  intros Hu He Hf. destruct u; [contradiction| | | |]; cbn [duse_op step ens_fun duse_fun] in *; rewrite He; cbn; rewrite Hf; reflexivity.
+Qed.
+Lemma detached_read_is_step W j k e c q : nth_error (enss W) j = Some e -> c_get_coords k e = Some c -> c_get_charges k e = Some q ->
+  step W (duse_op j k DRead) = Ok W (OConf c q) /\ duse_fun k DRead e = Some e.
+Proof. intros He Hc Hq. cbn [duse_op step ens_fun read_fun duse_fun]. rewrite He, Hc, Hq. split; reflexivity. Qed.
+(* hence whatever is written through a detached conformer stays in the copy: every ensemble that was there before
+   (the one it was copied from included) reads as before *)
+Lemma detached_original_untouched W i W1 e' : detach W i = Some W1 ->
+  forall j, j < length (enss W) -> nth_error (enss (set_ens W1 (length (enss W)) e')) j = nth_error (enss W) j.
+Proof.
+  intros H j Hj. destruct (detach_spec W i W1 H) as [e [_ [_ [_ [_ [Hk _]]]]]].
+  unfold set_ens; cbn [enss]. rewrite nth_error_set_nth_neq by lia. now apply Hk.
+Qed.
